@@ -101,6 +101,16 @@ def handle (line : String) : String :=
       | none => "ok det"
       | some why => "reject: " ++ why
     | _, _, _, _ => "bad-case"
+  | some [.list [.atom "psvres", .atom h]] =>
+    match Container.parse (ofHex h) with
+    | none => "reject: container"
+    | some parts =>
+      match DxilCheck.findPart Psv.ccPSV0 parts with
+      | [pv] =>
+        match Psv.resources pv.data with
+        | none => "reject: PSV0 resource table"
+        | some rs => "res " ++ " ".intercalate ((rs.map (fun r => s!"{r.2.1}:{r.2.2.1}")).mergeSort (· ≤ ·))
+      | _ => "reject: no single PSV0 part"
   | some [.list (.atom "note" :: _)] => "note"
   | _ => "bad-case line"
 
